@@ -12,7 +12,7 @@ for NAME in "$@"; do
   ( cd "$S" && PYTHONPATH="$S/src:$S" timeout 3000 /venv/bin/python -m pytest -ra -q -p no:cacheprovider --timeout=900 --continue-on-collection-errors > "$S/suite.log" 2>&1 )
   RC=$?
   SUMMARY=$(grep -E "^[0-9]+ (passed|failed)|passed|failed" "$S/suite.log" | tail -1 | sed 's/"/\\"/g' | cut -c1-200)
-  FAILED=$(grep -E "^FAILED|^ERROR" "$S/suite.log" | cut -c1-160 | head -10 | python3 -c "import sys,json; print(json.dumps([l.strip() for l in sys.stdin]))")
+  FAILED=$(grep -E "^(FAILED|ERROR) tests/" "$S/suite.log" | cut -c1-160 | head -10 | python3 -c "import sys,json; print(json.dumps([l.strip() for l in sys.stdin]))")
   echo "{\"suite_rc\": $RC, \"summary\": \"$SUMMARY\", \"failed\": $FAILED, \"repo_head\": \"$(git -C /repo rev-parse --short HEAD)\"}" > "$DEST/suite.json"
   echo "$NAME: rc=$RC $SUMMARY"
   rm -rf "$S"
